@@ -101,6 +101,8 @@ struct Inj<'a> {
     /// the application gave the interface another hardware address mid-run (`set_hardware_addr`): frames for the
     /// old one are then frames for another station
     hw_changed: bool,
+    /// directed broadcast address of the first IPv4 subnet (prefix length varies per run)
+    bc1: [u8; 4],
 }
 
 fn a6(b0: u8, b1: u8, last2: [u8; 2]) -> [u8; 16] {
@@ -156,9 +158,15 @@ impl<'a> Inj<'a> {
                 DstClass::AllNodes => a6(0xff, 0x02, [0, 1]),
                 DstClass::OwnSolicited => IpAddr::V6(own).solicited_node().v6(),
                 DstClass::ForeignSolicited => {
+                    // the solicited-node group of another address: one that differs in all of the 24 bits the group
+                    // is formed from, or in the first of them only
                     let mut o = own;
-                    o[13] = 0x77;
-                    o[15] = 0x33;
+                    if self.tape.draw(2) == 0 {
+                        o[13] = 0x77;
+                        o[15] = 0x33;
+                    } else {
+                        o[13] ^= 0x80;
+                    }
                     IpAddr::V6(o).solicited_node().v6()
                 }
                 DstClass::JoinedGroup => a6(0xff, 0x02, [0, 0x42]),
@@ -178,7 +186,7 @@ impl<'a> Inj<'a> {
                 DstClass::Own => self.v4.unwrap(),
                 DstClass::OtherOnLink => [10, 0, 0, 9],
                 DstClass::OtherOffLink => [192, 0, 2, 9],
-                DstClass::SubnetBroadcast => [10, 0, 0, 255],
+                DstClass::SubnetBroadcast => self.bc1,
                 DstClass::LimitedBroadcast => [255, 255, 255, 255],
                 DstClass::AllNodes => [224, 0, 0, 1],
                 DstClass::OwnSolicited | DstClass::JoinedGroup => [224, 0, 0, 66],
@@ -187,7 +195,7 @@ impl<'a> Inj<'a> {
                 DstClass::Loopback => [127, 0, 0, 1],
                 DstClass::LookalikeUnicast => [172, 17, 0, 1],
                 DstClass::Own2 => if self.two_v4 { [172, 16, 5, 1] } else { self.v4.unwrap() },
-                DstClass::SubnetBroadcast2 => if self.two_v4 { [172, 16, 255, 255] } else { [10, 0, 0, 255] },
+                DstClass::SubnetBroadcast2 => if self.two_v4 { [172, 16, 255, 255] } else { self.bc1 },
             })
         }
     }
@@ -209,13 +217,13 @@ impl<'a> Inj<'a> {
             IpAddr::V4(match c {
                 SrcClass::OnLink => [10, 0, 0, 2],
                 SrcClass::OffLink => [192, 0, 2, 7],
-                SrcClass::Broadcast => [10, 0, 0, 255],
+                SrcClass::Broadcast => self.bc1,
                 SrcClass::Multicast => [224, 0, 0, 5],
                 SrcClass::Unspecified => [0, 0, 0, 0],
                 SrcClass::Loopback => [127, 0, 0, 1],
                 SrcClass::Own => self.v4.unwrap(),
                 SrcClass::OnLink2 => if self.two_v4 { [172, 16, 5, 2] } else { [10, 0, 0, 2] },
-                SrcClass::Broadcast2 => if self.two_v4 { [172, 16, 255, 255] } else { [10, 0, 0, 255] },
+                SrcClass::Broadcast2 => if self.two_v4 { [172, 16, 255, 255] } else { self.bc1 },
             })
         }
     }
@@ -270,9 +278,16 @@ pub fn run(tape: &mut Tape, props: Props, thorough: bool, trace_on: bool) -> Out
     let v6addr: [u8; 16] = if medium == Medium::Ip { a6(0xfd, 0, [0, 1]) } else { a6(0xfe, 0x80, [0, 1]) };
     let v4 = if medium == Medium::Ieee802154 { None } else { Some([10, 0, 0, 1]) };
     let two_v4 = v4.is_some() && tape.draw(3) == 2;
+    // prefix length of the first IPv4 subnet: mostly /24, also the narrowest subnet that still has a broadcast
+    // address (/30: 10.0.0.3) and wider ones
+    let plen1: u8 = if v4.is_some() { *tape.pick(&[24u8, 24, 24, 30, 28, 16, 29]) } else { 24 };
+    let bc1: [u8; 4] = {
+        let mask = u32::MAX << (32 - plen1 as u32);
+        ((u32::from_be_bytes([10, 0, 0, 1]) & mask) | !mask).to_be_bytes()
+    };
     cfg.addrs = match v4 {
-        Some(a) if two_v4 => vec![(IpAddr::V4(a), 24), (IpAddr::V4([172, 16, 5, 1]), 16)],
-        Some(a) => vec![(IpAddr::V4(a), 24), (IpAddr::V6(v6addr), 64)],
+        Some(a) if two_v4 => vec![(IpAddr::V4(a), plen1), (IpAddr::V4([172, 16, 5, 1]), 16)],
+        Some(a) => vec![(IpAddr::V4(a), plen1), (IpAddr::V6(v6addr), 64)],
         None => vec![(IpAddr::V6(v6addr), 64)],
     };
     let mut node = build_node(&cfg);
@@ -340,8 +355,8 @@ pub fn run(tape: &mut Tape, props: Props, thorough: bool, trace_on: bool) -> Out
     if joined6 {
         let _ = node.iface.join_multicast_group(smoltcp::wire::Ipv6Address::new(0xff02, 0, 0, 0, 0, 0, 0, 0x42));
     }
-    let desc = format!("injector medium={:?} two-ipv4-subnets={} listeners={} udp={} raw={} joined4={} joined6={}", medium, two_v4, with_listeners, with_udp, has_raw, joined4, joined6);
-    let mut c = Inj { tape, props, node, view, medium, now: 1_000_000, stats: Stats::default(), hash: LogHash::new(), trace: vec![], trace_on, events: 0, socks, v4, v6: v6addr, joined4, joined6, has_raw, seq154: 0, two_v4, bound_listener, script: vec![], hw_changed: false };
+    let desc = format!("injector medium={:?} /{} two-ipv4-subnets={} listeners={} udp={} raw={} joined4={} joined6={}", medium, plen1, two_v4, with_listeners, with_udp, has_raw, joined4, joined6);
+    let mut c = Inj { tape, props, node, view, medium, now: 1_000_000, stats: Stats::default(), hash: LogHash::new(), trace: vec![], trace_on, events: 0, socks, v4, v6: v6addr, joined4, joined6, has_raw, seq154: 0, two_v4, bound_listener, script: vec![], hw_changed: false, bc1 };
     let r = body(&mut c, thorough);
     let nontrivial = c.stats.get("inj.packets") >= 5 && c.stats.get("inj.not-for-us") >= 1;
     c.stats.add("sim.seconds", (c.now / 1_000_000) as u64);
@@ -604,7 +619,7 @@ fn body(c: &mut Inj, thorough: bool) -> Result<(), Violation> {
                     }
                     let la = meta.local_address.map(|a| from_smol(&a));
                     if let (Some(b), Some(la)) = (bound, la) {
-                        let la_nonunicast = la.is_multicast() || la.is_limited_broadcast() || la == IpAddr::V4([10, 0, 0, 255]) || la == IpAddr::V4([172, 16, 255, 255]);
+                        let la_nonunicast = la.is_multicast() || la.is_limited_broadcast() || la == IpAddr::V4(c.bc1) || la == IpAddr::V4([172, 16, 255, 255]);
                         if la != b && !la_nonunicast {
                             return Err(viol("C11", "endpoint-match", "C11.endpoint/udp-wrong-address", format!("UDP socket bound to {}:{} received a datagram addressed to {}", b, port, la)));
                         }
